@@ -69,3 +69,46 @@ package ast
 // Package-level state is written only by the package initialisers: nothing is shared
 // mutably between runtimes through globals (C20).
 //@ globals_readonly[C20]
+
+// Spans of compound nodes whose end depends on an optional part: the end of an if
+// statement is the end of its else branch when there is one, of its then branch otherwise;
+// likewise return (argument), try (finally before catch), var (initialiser), break/continue
+// (label), new (closing parenthesis), postfix ++/--.
+//@ func (*IfStatement).Idx1
+//@   props C04
+//@   nosafety
+//@   calls ast.Statement.Idx1(is.Alternate) as a when !isnil(is.Alternate)
+//@   calls ast.Statement.Idx1(is.Consequent) as c when isnil(is.Alternate)
+//@   ensures !isnil(old(is.Alternate)) ==> result == a
+//@   ensures isnil(old(is.Alternate)) ==> result == c
+//@ func (*ReturnStatement).Idx1
+//@   props C04
+//@   nosafety
+//@   calls ast.Expression.Idx1(rs.Argument) as a when !isnil(rs.Argument)
+//@   ensures !isnil(old(rs.Argument)) ==> result == a
+//@   ensures isnil(old(rs.Argument)) ==> result == old(rs.Return) + 6
+//@ func (*VariableExpression).Idx1
+//@   props C04
+//@   nosafety
+//@   calls ast.Expression.Idx1(ve.Initializer) as a when !isnil(ve.Initializer)
+//@   ensures !isnil(old(ve.Initializer)) ==> result == a
+//@   ensures isnil(old(ve.Initializer)) ==> int(result) == old(int(ve.Idx) + len(ve.Name))
+//@ func (*UnaryExpression).Idx1
+//@   props C04
+//@   nosafety
+//@   calls ast.Expression.Idx1(ue.Operand) as a
+//@   ensures old(ue.Postfix) ==> result == a + 2
+//@   ensures !old(ue.Postfix) ==> result == a
+//@ func (*NewExpression).Idx1
+//@   props C04
+//@   nosafety
+//@   ensures old(ne.RightParenthesis) > 0 ==> result == old(ne.RightParenthesis) + 1
+//@   calls ast.Expression.Idx1(ne.Callee) as a when ne.RightParenthesis <= 0
+//@   ensures old(ne.RightParenthesis) <= 0 ==> result == a
+//@ func (*TryStatement).Idx1
+//@   props C04
+//@   nosafety
+//@   calls ast.Statement.Idx1(ts.Finally) as f when !isnil(ts.Finally)
+//@   ensures !isnil(old(ts.Finally)) ==> result == f
+//@   calls (*CatchStatement).Idx1(ts.Catch) as c when isnil(ts.Finally)
+//@   ensures isnil(old(ts.Finally)) ==> result == c
